@@ -10,11 +10,16 @@ A1t == <<"a", "A", 600, <<1>>>>      \* the same RRset under another TTL
 A2t == <<"a", "A", 600, <<2>>>>
 B1 == <<"b.a", "TXT", 300, <<1>>>>
 
+SA1 == <<"a", "RRSIG/A", 300, <<1>>>>     \* RRSIG covering A and RRSIG covering TXT at the same owner:
+ST1 == <<"a", "RRSIG/TXT", 300, <<1>>>>   \* two different RRsets (RFC 4035 2.2), deleted independently
+T1 == <<"a", "TXT", 300, <<1>>>>
+
 With(S) == {{NS1} \cup x : x \in SUBSET S}
 CTiny == {{NS1}, {NS1, A1}}
 CSmall == With({NS2, A1})
 CMid == With({NS2, A1, A2})
 CTtl == {{NS1, A1}, {NS1, A1t}, {NS1, A1t, A2t}, {NS1, A1, A2}}
+CSig == {{NS1, A1, T1} \cup x : x \in SUBSET {SA1, ST1}}
 CWide == With({A1, A2, B1})
 
 S1 == <<<<0, 1>>, <<0, 2>>, <<0, 3>>, <<0, 4>>>>
